@@ -77,9 +77,9 @@ func scalarVal(r *rand.Rand, f string, who int) string {
 		}
 		return fmt.Sprintf("class%d", r.Intn(4))
 	}
-	// cpus / mems: one time in three a value from a pool everybody draws from - a plugin may ask for exactly what the
+	// cpus / mems: every other time a value from a pool everybody draws from - a plugin may ask for exactly what the
 	// container has already, or for what an earlier plugin asked (it sets the item all the same)
-	if r.Intn(3) == 0 {
+	if r.Intn(2) == 0 {
 		return pick(r, []string{"0-3", "2,4"})
 	}
 	return fmt.Sprintf("%d-%d", who, r.Intn(8))
